@@ -113,9 +113,13 @@ def pandas_case(run, rng, i):
     what = "SeriesSchema" if spec["kind"] == "series" else "DataFrameSchema"
     observe(run, schema, obj, kw, what, spec, table, owner)
     # head/tail/sample do not change the obligation
-    if rng.random() < 0.2 and len(data):
-        observe(run, B.pandas_schema(spec), obj, {"lazy": lazy, "head": 1, "tail": 1}, what + "+head",
-                spec, table, owner)
+    if rng.random() < 0.3 and len(data):
+        kw2 = {"lazy": lazy}
+        for name in rng.sample(["head", "tail", "sample"], rng.randint(1, 2)):
+            kw2[name] = rng.randint(0, len(data))
+        if "sample" in kw2:
+            kw2["random_state"] = rng.choice([0, 1, 7])
+        observe(run, B.pandas_schema(spec), obj, kw2, what + "+subsample", spec, table, owner)
     if spec["kind"] != "frame":
         return
     # component schemas validated directly against the frame
@@ -134,7 +138,7 @@ def pandas_case(run, rng, i):
 
 def polars_case(run, rng, i):
     import polars as pl
-    spec, table, opts, muts = P.gen_parse_case(rng, neutral=True, mutate_p=0.5)
+    spec, table, opts, muts = P.gen_parse_case(rng, neutral=True, mutate_p=0.5, neutral_regex=True)
     if C.has_dup_labels(table):
         return
     lazyframe = rng.random() < 0.5
@@ -148,6 +152,14 @@ def polars_case(run, rng, i):
     run.case(canon_hash(["polars", lazyframe, spec, table, lazy]), bool(opts) or bool(muts), sample=None)
     what = "polars.DataFrameSchema/" + ("LazyFrame" if lazyframe else "DataFrame")
     observe(run, schema, data, {"lazy": lazy}, what, spec, table)
+    n = len(table["columns"][0]["values"]) if table["columns"] else 0
+    if n and rng.random() < 0.4:
+        kw = {"lazy": lazy}
+        for name in rng.sample(["head", "tail", "sample"], rng.randint(1, 2)):
+            kw[name] = rng.randint(0, n)
+        if "sample" in kw:
+            kw["random_state"] = rng.choice([0, 1, 7])
+        observe(run, B.polars_schema(spec), data, kw, what + "+subsample", spec, table)
     present = [n for n in schema.columns if n in [c["name"] for c in table["columns"]]]
     for n in present[:2]:
         observe(run, schema.columns[n], data, {"lazy": rng.random() < 0.5}, "polars.Column", spec, table)
